@@ -110,11 +110,29 @@ pub fn thresholds(seed: u64, thorough: bool) -> Vec<BuildSpec> {
                     out.push(s);
                 }
             }
+            // beyond version 40 with a forced version that is also too small: the data-too-big error wins (the minimal version does not exist)
+            for (i, fv) in [1usize, 20].into_iter().enumerate() {
+                let mut s = spec(payload(&mut r, mode, 7090 + i, false), Some(e), Some(mode), Some(fv), None, format!("beyondforced:{mode}:{e}:{i}"));
+                s.lite = true;
+                out.push(s);
+            }
             for (i, n) in [7090usize, 10_000, 100_000, 1_000_000].into_iter().enumerate() {
                 let p = if n > 20_000 { vec![[b'7', b'A', 0xA5][mode]; n] } else { payload(&mut r, mode, n, false) };
                 let mut s = spec(p, Some(e), if i % 2 == 0 { Some(mode) } else { None },
                                  if i >= 2 { Some(40) } else { None }, None, format!("beyond:{mode}:{e}:{i}"));
                 s.lite = true;
+                out.push(s);
+            }
+        }
+    }
+    // no level given: the thresholds of the default level (Q), automatic and forced mode, automatic and forced version
+    for mode in 0..3usize {
+        for v in 1..=40usize {
+            let cap = capacity(mode, 2, v);
+            for (i, n) in [cap.saturating_sub(1), cap, cap + 1].into_iter().enumerate() {
+                let forced_mode = (v + i) % 2 == 1;
+                let mut s = spec(payload(&mut r, mode, n, !forced_mode), None, if forced_mode { Some(mode) } else { None }, if i == 1 && v % 3 == 0 { Some(v) } else { None }, None, format!("thrdefault:{mode}:{v}:{i}"));
+                s.lite = !(v <= 4 || (thorough && v % 8 == 0));
                 out.push(s);
             }
         }
@@ -244,6 +262,27 @@ pub fn total(seed: u64, thorough: bool) -> Vec<BuildSpec> {
         s.lite = !(n <= 60 || i % 16 == 0);
         out.push(s);
     }
+    // lengths around 2^16 and far beyond, constant and mixed content
+    for (i, n) in [65_535usize, 65_536, 65_537, 70_000, 100_000, 1_000_000].into_iter().enumerate() {
+        let p = if i % 2 == 0 { vec![[b'7', b'A', 0xA5][i % 3]; n] } else { content(&mut r, 3 + i % 3, n) };
+        let mut s = spec(p, [None, Some(0), Some(3)][i % 3], None, [None, Some(40), Some(1)][i % 3], None, format!("huge:{i}"));
+        s.lite = true;
+        out.push(s);
+    }
+    // every byte value as the only content, three lengths
+    for b in 0..=255u8 {
+        for (i, n) in [1usize, 17, 100].into_iter().enumerate() {
+            let mut s = spec(vec![b; n], if b % 3 == 0 { Some((b as usize / 3) % 4) } else { None }, None, if i == 2 { Some(10 + b as usize % 31) } else { None }, if b % 5 == 0 { Some(b as usize % 8) } else { None }, format!("mono:{i}"));
+            s.lite = true;
+            out.push(s);
+        }
+    }
+    // the empty input under every combination of {unset, smallest, largest} per option and every mode choice
+    for ecl in [None, Some(0usize), Some(3)] { for version in [None, Some(1usize), Some(40)] { for mask in [None, Some(0usize), Some(7)] { for mode in [None, Some(0usize), Some(1), Some(2)] {
+        let mut s = spec(vec![], ecl, mode, version, mask, format!("empty:{}", mode.map_or(9, |m| m)));
+        s.lite = version == Some(40);
+        out.push(s);
+    } } } }
     // every combination of {unset, smallest, largest} per option on a few contents
     let mut j = 0usize;
     for ecl in [None, Some(0usize), Some(3)] {
